@@ -107,6 +107,11 @@ func recoverFile(info types.SegmentInfo, wf types.WritableFile, bufPool *sync.Po
 }
 
 // clearStaleTail zeros whatever follows the recovered write offset and syncs.
+// The sync is unconditional: what we just recovered may have been written by a
+// process that died before its fsync, in which case it only exists in the page
+// cache. It must be durable before new batches are appended after it, otherwise
+// a later power loss could keep the new frames but lose the older ones (for
+// example the file header), which recovery can't cope with.
 // Those bytes belong to batches that were torn by a crash. If they were left in
 // place, a later torn append could end up interleaved with them on disk in a
 // way that passes the commit CRC of the old batch (old and new frames sit at
@@ -131,9 +136,6 @@ func (w *Writer) clearStaleTail() error {
 		if err == io.EOF || n == 0 {
 			break
 		}
-	}
-	if dirtyEnd < 0 {
-		return nil
 	}
 	for off = start; off < dirtyEnd; off += int64(len(zeros)) {
 		n := dirtyEnd - off
